@@ -189,10 +189,18 @@ def soft_threshold(f, tval):
     thresholded : ndarray
     '''
 
-    f = f * (np.abs(f) > tval)
-    f -= tval * (f > tval)
-    f += tval * (f < -tval)
-    return f
+    f = np.asanyarray(f)
+    if f.dtype.kind in 'ui' and tval == int(tval):
+        # a numpy integer scalar would promote the arithmetic below (uint64 with int64 becomes float64)
+        tval = int(tval)
+    # Work on the selected elements only: in-place arithmetic with the boolean masks cannot be
+    # cast back to an unsigned integer array, and np.abs() overflows for the most negative integer.
+    above = (f > tval)
+    below = (f < 0) & ((f + tval) < 0)
+    thresholded = np.zeros_like(f)
+    thresholded[above] = f[above] - tval
+    thresholded[below] = f[below] + tval
+    return thresholded
 
 def bernsen(f, radius, contrast_threshold, gthresh=None):
     '''
